@@ -130,7 +130,7 @@ def _reservoirs(run, prog, ts):
     run.check(guard in sctx.guards, "RESERVOIR", "create-on-new-leaf", f"{s.path}:{sev.line}", fq,
               f"creation guard {ir.show_nl(sctx.guards[-1])[:100] if sctx.guards else None}",
               "a reservoir must be created exactly when the leaf id has no reservoir yet", "if leaf_id not in reservoirs: create")
-    dels = [(ev, ctx) for ev, ctx in walk(s.events) if isinstance(ev, ir.Del)]
+    dels = [(ev, ctx) for ev, ctx in walk(s.events) if isinstance(ev, ir.Del)] or _rebuilds(s)
     ok = bool(dels) and all(guard in ctx.guards and index[id(d)] > index[id(sev)] for d, ctx in dels)
     run.check(ok, "RESERVOIR", "sweep-after-create", f"{s.path}:{sev.line}", fq, "outdated-reservoir sweep",
               "creating a reservoir for a new leaf id (the tree changed shape) must be followed on the same path by the "
@@ -178,6 +178,21 @@ def _reservoirs(run, prog, ts):
               "learn_one precedes the routing")
 
 
+def _rebuilds(s):
+    """The other spelling of a sweep: the kept entries are collected (eagerly), the dict is emptied and refilled with
+    them -- [(clear event, ctx)] for every `D.clear()` that is followed by `D.update(<entries of D>)`."""
+    evs = list(walk(s.events))
+    out = []
+    for i, (ev, ctx) in enumerate(evs):
+        if isinstance(ev, ir.Mut) and ev.method == "clear" and not ev.args:
+            for ev2, ctx2 in evs[i + 1:]:
+                if isinstance(ev2, ir.Mut) and ev2.recv == ev.recv and ev2.method == "update" and len(ev2.args) == 1 and \
+                        ctx2.guards == ctx.guards and ctx2.loops == ctx.loops:
+                    out.append((ev, ctx))
+                    break
+    return out
+
+
 def _sweep(run, prog, ts):
     """The outdated-reservoir sweep, analysed where it happens: inside update (helpers inlined)."""
     ENUM = _enum(prog)
@@ -192,6 +207,14 @@ def _sweep(run, prog, ts):
     dels = [(ev, ctx) for ev, ctx in walk(s.events) if isinstance(ev, ir.Del)]
     writers = [ev for ev, _ in walk(s.events, structural=True) if isinstance(ev, ir.Inlined) and ev.fn.name == WRITER]
     roots = {ev.params.get(ev.fn.args.args[0].arg) for ev in writers}
+    rebuilt = _rebuilds(s) if not dels else []
+    if rebuilt and len(enum) == 1 and len(enum[0][1]) == 1 and not enum[0][2] and enum[0][1][0] in roots:
+        ok, why, line = _rebuild_form(s, rebuilt, enum[0][0])
+        run.check(ok, "SWEEP", "predicate", f"{s.path}:{line}", fq, f"sweep: {why or 'ok'}",
+                  f"the sweep must drop exactly the reservoir ids that are not among the current tree's enumerated paths: {why}",
+                  "kept = [(id, r) for id, r in reservoirs.items() if id in all_paths]; reservoirs.clear(); reservoirs.update(kept)")
+        _fresh_accumulator(run, prog, ENUM, ENUM_NAME)
+        return
     ok = len(enum) == 1 and len(enum[0][1]) == 1 and not enum[0][2] and len(dels) == 1
     why = "" if ok else f"{len(enum)} enumerations / {len(dels)} deletions"
     if ok and enum[0][1][0] not in roots:
@@ -237,6 +260,45 @@ def _sweep(run, prog, ts):
     run.check(ok, "SWEEP", "predicate", f"{s.path}:{line}", fq, f"sweep: {why or 'ok'}",
               f"the sweep must delete exactly the reservoir ids that are not among the current tree's enumerated paths, "
               f"iterating over a copy of the ids: {why}", "for id in list(ids): if id not in all_paths: del reservoirs[id]")
+    _fresh_accumulator(run, prog, ENUM, ENUM_NAME)
+
+
+def _rebuild_form(s, rebuilt, enum_res):
+    """clear() + update(kept): kept must be an eagerly built list / dict of exactly the entries of the same dict whose
+    id is among the enumerated paths."""
+    if len(rebuilt) != 1:
+        return False, f"{len(rebuilt)} rebuilds of the reservoir dict", s.fn.lineno
+    cev, cctx = rebuilt[0]
+    res = cev.recv
+    evs = [ev for ev, _ in walk(s.events)]
+    upd = next(ev for ev in evs[evs.index(cev) + 1:] if isinstance(ev, ir.Mut) and ev.recv == res and ev.method == "update")
+    kept = upd.args[0]
+    if not (res[0] == "sub" and res[1] == ("field0", "data_reservoirs")):
+        return False, "the dict that is emptied is not the feature's reservoir dict", cev.line
+    paths_forms = [enum_res] + [("new", "@", k, (enum_res,)) for k in ("set", "frozenset", "list", "tuple")] + \
+        [("fn", k, (enum_res,)) for k in ("frozenset", "tuple", "sorted")]
+    forms = [ir.strip_sites(p) for p in paths_forms]
+    if not (kept[0] == "comp" and kept[1] in ("list", "dict")):
+        lazy = kept[0] == "comp" and kept[1] == "gen"
+        return False, ("the kept entries are a generator that is only run after the dict has been emptied" if lazy else
+                       f"the refill {ir.show_nl(kept)[:100]} is not an eagerly built collection of kept entries"), upd.line
+    lid, it, key, val, conds = kept[2], kept[3], kept[4], kept[5], kept[6]
+    el = ("elem", lid)
+    if not (it[0] == "res" and it[2] == ".items" and it[3] == (res,)):
+        return False, f"the kept entries are taken from {ir.show_nl(it)[:80]}, not from the reservoir dict itself", upd.line
+    k, v = ("tget", el, 0), ("tget", el, 1)
+    entry = (kept[1] == "list" and val in (el, ("tuple", (k, v)))) or (kept[1] == "dict" and key == k and val == v)
+    if not entry:
+        return False, "the kept entries are not the (id, reservoir) pairs themselves", upd.line
+    test = len(conds) == 1 and conds[0][0] == "cmp" and conds[0][1] == "in" and conds[0][2] == k and \
+        ir.strip_sites(conds[0][3]) in forms
+    if not test:
+        return False, (f"entries are kept under {ir.show_nl(conds[0])[:100] if conds else 'no test'}, not exactly when their id "
+                       f"is among the enumerated tree paths"), upd.line
+    return True, "", cev.line
+
+
+def _fresh_accumulator(run, prog, ENUM, ENUM_NAME):
     _, efn = prog.func(ENUM)
     run.analysed_fn(ENUM_NAME)
     defaults = [d for d in efn.args.defaults]
